@@ -22,7 +22,8 @@ PID = "C09"
 LEVEL = "fault_enumeration"
 TECHNIQUE = ("fault enumeration over an application-behaviour DSL: an exception of each of 7 classes at every step of 12 behaviour "
              "shapes x expose_tracebacks x log_socket_errors, and a client disconnect at every send index, with the real worker pool "
-             "under the baton scheduler (deterministic + sampled schedules); wire / close()-count / liveness oracle")
+             "under the baton scheduler (deterministic + sampled schedules), failure x late-arriving pipelined request races under hot-spot "
+             "schedules, two queued file_wrapper responses with failing close(); wire / close()-count / liveness oracle")
 RULE = ("case = (behaviour shape, fault point, exception class, expose_tracebacks, log_socket_errors) or (behaviour shape, "
         "client disconnect after the n-th send / after n received bytes), optional schedule; non-trivial = the planned fault "
         "was actually hit (the step existed / the send index was reached); distinct by case hash")
@@ -69,7 +70,8 @@ def to_scenario(case):
         if case.get("recall"):
             beh["recall"] = True
     adj = {"threads": case.get("workers", 1), "expose_tracebacks": bool(case.get("expose")), "log_socket_errors": case.get("log_socket_errors", True)}
-    victim = {"segments": [req(0, 0) + req(0, 1)], "capacity": case.get("capacity"), "drain": case.get("drain", "all")}
+    victim = {"segments": [req(0, 0), req(0, 1)] if case.get("split") else [req(0, 0) + req(0, 1)], "capacity": case.get("capacity"),
+              "drain": case.get("drain", "all")}
     if case.get("early") == "eof":
         victim["eof"] = True
     elif case.get("early") == "reset":
@@ -233,6 +235,15 @@ def disconnect_cases():
                     yield {"shape": si, "second": sj, "fw_close_raises": cr, "send_fault": k, "send_errno": "EPIPE", "capacity": 40, "drain": 16}
 
 
+def race_cases():
+    """the second request of the victim arrives in a read of its own, so that it can still be unread when the failure is handled:
+    'the connection is then closed' has to hold for every interleaving of the I/O thread with the worker that handles the failure"""
+    for si, pt in ((0, ["call"]), (3, ["iter", 0]), (3, ["iter", 1]), (6, ["write", 0]), (0, ["start_response"]), (8, ["return"])):
+        for exc in ("ValueError", "OSError", "SystemExit"):
+            for la in (0, 1, 2):
+                yield {"shape": si, "raise_at": pt, "exc": exc, "split": True, "lookahead": la, "log_socket_errors": exc != "OSError"}
+
+
 def early_cases():
     for si in range(len(SHAPES)):
         for early in ("eof", "reset"):
@@ -250,6 +261,9 @@ def case_strategy():
         if kind == "early":
             case.update(early=draw(st.sampled_from(["eof", "reset"])), lookahead=draw(st.sampled_from([1, 2])))
             return case
+        if kind == "exc":
+            case["split"] = draw(st.booleans())
+            case["lookahead"] = draw(st.sampled_from([0, 1, 2]))
         if kind != "exc" and draw(st.booleans()):
             case["second"] = draw(st.integers(0, len(SHAPES) - 1))
             case["fw_close_raises"] = draw(st.booleans())
@@ -269,6 +283,8 @@ def case_strategy():
 def jobs(tier, seed):
     js = [{"kind": "enum", "shard": s, "nshards": 12} for s in range(12)] + [{"kind": "disconnect", "shard": s, "nshards": 2} for s in range(2)]
     js.append({"kind": "early", "n": 40 if tier == "quick" else 1500, "seed": derive_seed(seed, "c09e")})
+    for sh in range(4):
+        js.append({"kind": "race", "n": 30 if tier == "quick" else 600, "seed": derive_seed(seed, "c09r", sh), "shard": sh, "nshards": 4})
     n = 150 if tier == "quick" else 5000
     for sh in range(8 if tier == "quick" else 16):
         js.append({"kind": "hyp", "n": n, "seed": derive_seed(seed, "c09", sh)})
@@ -298,6 +314,15 @@ def run_job(job, col):
             one(c)
             for _ in range(job["n"] // 8):
                 one(dict(c, schedule={"kind": "hot", "seed": rnd.randrange(10 ** 9), "p_hot": 0.35, "p_cold": 0.02}))
+    elif job["kind"] == "race":
+        import random
+        rnd = random.Random(job["seed"])
+        for i, c in enumerate(race_cases()):
+            if i % job["nshards"] != job["shard"]:
+                continue
+            one(c)
+            for j in range(job["n"]):
+                one(dict(c, gran="line" if j % 3 == 2 else "sync", schedule={"kind": "hot", "seed": rnd.randrange(10 ** 9), "p_hot": 0.35, "p_cold": 0.02}))
     elif job["kind"] == "disconnect":
         for i, c in enumerate(disconnect_cases()):
             if i % job["nshards"] == job["shard"]:
